@@ -1,4 +1,39 @@
-import Heathcliff.Spec.Scheme
+import Heathcliff.Proofs.C07L
+
+/- Property theorems only (statements verbatim; proofs are the helper lemmas of Heathcliff/Proofs). -/
 namespace HC.C07
-theorem placeholder : Spec.budget true 3 17 #[] = 4 := by decide
+open HC
+variable {m : Modulus}
+
+/-- bit count is monotone and characterised by powers of two -/
+theorem bitCount_le_iff (v k : Nat) : bitCount v ≤ k ↔ v < 2^k := HC.bitCount_le_iff v k
+
+theorem bitCount_mono {a b : Nat} (h : a ≤ b) : bitCount a ≤ bitCount b := HC.bitCount_mono h
+
+theorem budget_eq (bfv : Bool) (t Q : Nat) (ph : Array Int) :
+    Spec.budget bfv t Q ph = ((bitCount Q : Int) - (bitCount (noiseNorm bfv t Q ph) : Int) - 1).toNat := HC.budget_eq bfv t Q ph
+
+/-- centred lift is odd for odd moduli (coefficient moduli are odd primes) -/
+theorem centred_neg {Q : Nat} (hQ : Q % 2 = 1) (x : Int) :
+    Spec.centred (Spec.imod (-x) Q) Q = - Spec.centred (Spec.imod x Q) Q := HC.centred_neg hQ x
+
+/-- NEGATION preserves the budget exactly (Q odd) -/
+theorem budget_negate (bfv : Bool) {t Q : Nat} (hQ : Q % 2 = 1) (ph : Array Int) :
+    Spec.budget bfv t Q (ph.map (fun x => -x)) = Spec.budget bfv t Q ph := HC.budget_negate bfv hQ ph
+
+/-- triangle inequality for the centred reduction -/
+theorem centred_add_le {Q : Nat} (hQ : 0 < Q) (x y : Int) :
+    (Spec.centred (Spec.imod (x + y) Q) Q).natAbs ≤ (Spec.centred (Spec.imod x Q) Q).natAbs + (Spec.centred (Spec.imod y Q) Q).natAbs := HC.centred_add_le hQ x y
+
+/-- SUM OF k CIPHERTEXTS: the noise norm of a coefficient-wise sum of k phases is at most k times the largest norm,
+    hence the budget drops by at most ⌈log2 k⌉ (the property allows one more bit) -/
+theorem budget_add_k (bfv : Bool) {t Q n : Nat} (hQ : 0 < Q) (phs : List (Array Int)) (hk : phs ≠ [])
+    (hn : ∀ ph ∈ phs, ph.size = n) (b : Nat) (hb : ∀ ph ∈ phs, b ≤ Spec.budget bfv t Q ph) :
+    let sum : Array Int := Array.ofFn (n := n) fun j => (phs.map (fun ph => ph.getD j.val 0)).sum
+    b ≤ Spec.budget bfv t Q sum + Nat.clog 2 phs.length + 1 := HC.budget_add_k bfv hQ phs hk hn b hb
+
+/-- EXACTNESS BELOW THE THRESHOLD (BFV): if t·x = Q·m' + ν with 2|ν| < Q then rounding t·x/Q gives m' -/
+theorem exact_below_threshold {t Q : Nat} (hQ : 0 < Q) {x m' ν : Int} (h : t * x = Q * m' + ν) (hν : 2 * ν.natAbs < Q) :
+    Spec.roundDiv (t * x) Q = m' := HC.exact_below_threshold hQ h hν
+
 end HC.C07
